@@ -3,7 +3,7 @@
 set -euo pipefail
 export GOFLAGS=-mod=mod GOPROXY=off GOSUMDB=off GOTOOLCHAIN=local
 S="$1"
-V=/verif
+V="$(cd "$(dirname "$0")/.." && pwd)"
 mkdir -p "$S"
 rsync -a --delete --exclude .git /repo/ "$S/repo/"
 mkdir -p "$S/repo/zsimrt"
